@@ -866,6 +866,15 @@ func (*c19) Corpus() []any {
 			AdhocURLs: []string{"http://private.corp.test:443/charts/a-1.0.0.tgz"}, Note: "defport-other"},
 		c19Case{Kind: "pull", Ref: "a", RepoURL: "https://private.corp.test:80/charts", User: "user-cli", Pass: "pw-cli",
 			AdhocURLs: []string{"https://private.corp.test/charts/a-1.0.0.tgz"}, Note: "defport-other"},
+		c19Case{Kind: "pull", Ref: "a", RepoURL: "http://private.corp.test:443/charts", User: "user-cli", Pass: "pw-cli", Verify: 3, ProvOK: true,
+			AdhocURLs: []string{"http://private.corp.test/charts/a-1.0.0.tgz"}, Note: "defport-other"},
+		c19Case{Kind: "pull", Ref: "a", RepoURL: "http://private.corp.test/charts", User: "user-cli", Pass: "pw-cli",
+			AdhocURLs: []string{"http://private.corp.test:443/charts/a-1.0.0.tgz"}, Note: "defport-other"},
+		c19Case{Kind: "locate", Ref: "a", RepoURL: "https://private.corp.test:80/charts", User: "user-cli", Pass: "pw-cli",
+			AdhocURLs: []string{"https://private.corp.test/charts/a-1.0.0.tgz"}, Note: "defport-other"},
+		c19Case{Kind: "manager", DepRepo: "https://private.corp.test/charts", SkipUpdate: true, Repos: []c19Repo{
+			{Name: "private", URL: "https://private.corp.test/charts", User: "user-private", Pass: "pw-private", URLs: []string{"https://private.corp.test:80/charts/a-1.0.0.tgz"}}},
+			Note: "defport-other"},
 		// IPv6 literal, userinfo, upper-case scheme, empty port
 		c19Case{Kind: "getter", Ctor: []c19Opt{{K: "url", A: "HTTP://u:p@[::1]:8080/charts"}, {K: "auth", A: "user-g", B: "pw-g"}},
 			Gets: []c19Get{{Href: "http://[::1]:8080/charts/a-1.0.0.tgz"}, {Href: "http://[::1]/charts/a-1.0.0.tgz"}, {Href: "http://[::1]:/charts/a-1.0.0.tgz"}}, Note: "ipv6"},
